@@ -29,6 +29,13 @@ def build(inst):
     P, K, N = inst["P"], inst["K"], inst["N"]
     H = np.array(inst["H"], dtype=np.int64).reshape(K, N)
     A = inst["A"]
+    T = inst.get("tile", 1)
+    if T > 1:
+        # a long locus: the N SNV columns of haplotypes and reads repeated T times (CallModel!Tile)
+        inst = dict(inst, reads=[dict(rd, cells=list(rd["cells"]) * T) for rd in inst["reads"]])
+        H = np.tile(H, (1, T))
+        A = list(A) * T
+        N = N * T
     maxA = max(A) if N else 0
     R = len(inst["reads"])
     reads = np.zeros((R, N, maxA), dtype=np.float64)
